@@ -183,4 +183,21 @@ PROPS = {
         level_note="Sequential contracts; universally quantified ghost witness for 'no other application'.",
         explanation="case postconditions of validate_message_avps, _receive_app_request and _receive_message.",
     ),
+    "C11": dict(
+        specs=["packer", "avp", "avp_types", "avp_grouped", "base", "node_model", "peer", "helpers", "c20", "family", "node"],
+        ground=[], replay=replay.generic,
+        trusted_base=["time.time() is a non-decreasing virtual clock (T-time)"],
+        assumptions=COMMON_ASSUME + [
+            "NOT DECIDED: that the I/O loop calls _check_timers every wakeup_interval (timing of the timer check)",
+            "assumed contract: Node.close_connection_socket (ghost call counter + reason), assign_attr_from_defs",
+            "state invariant used as precondition: state == READY_WAITING_DWA implies a DWR timestamp is set"],
+        level_text="Deductive proof that Node._check_timers is the specified total decision function of (stopping flag, state, "
+                   "virtual-clock readings, node timers, per-peer overrides with peer-over-node precedence): READY and idle longer "
+                   "than the idle timeout => exactly one DWR queued, state READY_WAITING_DWA, DWR timestamp set; within the "
+                   "idle timeout => nothing happens; READY_WAITING_DWA longer than the DWA timeout => closed with DWA_TIMEOUT and "
+                   "never a second DWR; CONNECTED beyond the CER/CEA timeout => closed with FAILED_CONNECT_CE; DWA => READY and "
+                   "timer cleared; DWR => exactly one 2001 DWA with the node's Origin-State-Id in either ready sub-state.",
+        level_note="All timer values and clock readings (no horizon bound). Sequential contracts.",
+        explanation="case postconditions over a virtual clock.",
+    ),
 }
